@@ -1,12 +1,12 @@
 #!/bin/sh
 # usage: tools/refactest.sh <worktree> <property> : behaviour-preserving refactorings (refactor_<k>.diff in the worktree) must NOT
 # raise an alarm.  Each is applied to a scratch export of /repo's HEAD ($SCRATCH, default /var/tmp/pbh), the quick check runs there.
-WT="$1"; PID="$2"; SCRATCH="${SCRATCH:-/var/tmp/pbh}"; HERE="$(cd "$(dirname "$0")/.." && pwd)"
+WT="$(cd "$1" && pwd)"; PID="$2"; SCRATCH="${SCRATCH:-/var/tmp/pbh}"; HERE="$(cd "$(dirname "$0")/.." && pwd)"
 for d in "$WT"/refactor_*.diff; do
   [ -s "$d" ] || continue
   k=$(basename "$d" .diff)
-  ( cd "$SCRATCH" && patch -p1 -s < "$d" ) || { echo "$PID $k: patch does not apply"; continue; }
+  ( cd "$SCRATCH" && patch -p1 -s < "$d" ) || { echo "$(basename "$WT") $k: patch does not apply"; continue; }
   PYBROPS_REPO="$SCRATCH" PYVC_EVIDENCE_DIR=/var/tmp/thorough/ev "$HERE/check" "$PID" > /var/tmp/thorough/refac-$PID-$k.log 2>&1; rc=$?
   ( cd "$SCRATCH" && patch -R -p1 -s < "$d" )
-  echo "$PID $k: exit=$rc violations=$(grep -c '^VIOLATION' /var/tmp/thorough/refac-$PID-$k.log) proof_lost=$(grep -c '^PROOF-LOST' /var/tmp/thorough/refac-$PID-$k.log) $(grep -E '^(UNDECIDED|TOOL-ERROR|RING-STOPPED)' /var/tmp/thorough/refac-$PID-$k.log | head -1 | cut -c1-120)"
+  echo "$(basename "$WT") $k: exit=$rc violations=$(grep -c '^VIOLATION' /var/tmp/thorough/refac-$PID-$k.log) proof_lost=$(grep -c '^PROOF-LOST' /var/tmp/thorough/refac-$PID-$k.log) $(grep -E '^(UNDECIDED|TOOL-ERROR|RING-STOPPED)' /var/tmp/thorough/refac-$PID-$k.log | head -1 | cut -c1-120)"
 done
